@@ -75,7 +75,7 @@ func (m *c26mon) enabled(ev string) bool {
 		return f[0] == "Connect"
 	case "awake":
 		// a client between two sleep periods: sleep again, wake up fully, or leave
-		return f[0] == "Sleep" || f[0] == "Connect" || f[0] == "Disconnect" || f[0] == "broker"
+		return f[0] == "Sleep" || f[0] == "Connect" || f[0] == "Disconnect" || f[0] == "broker" || f[0] == "Ping"
 	}
 	switch f[0] {
 	case "Connect":
@@ -198,7 +198,9 @@ func (m *c26mon) apply(st *stack.Stack, ev string) (vs []explore.Violation) {
 		}
 	case "Ping":
 		n0 := st.B.Pings
-		if must(st.Go(ev, st.C.Ping)) && st.B.Pings == n0 {
+		// (between two sleep periods the gateway answers the PINGREQ itself, as a wake-up: only the call's success
+		// is demanded there)
+		if must(st.Go(ev, st.C.Ping)) && st.B.Pings == n0 && m.state != "awake" {
 			add("ping-without-effect", "Ping returned nil but no PINGREQ reached the broker")
 		}
 	case "Sleep":
